@@ -9,6 +9,17 @@ use texcraft_stdext::collections::groupingmap::{
 use texcraft_stdext::collections::interner::Interner;
 use texcraft_stdext::collections::nevec::Nevec;
 
+pub fn dispatch(cmd: &str, args: &Args) -> Option<i32> {
+    Some(match cmd {
+        "c20-map-walk" => map_walk(args),
+        "c20-map-trace" => map_trace(args),
+        "c20-interner" => interner(args),
+        "c20-kmp" => kmp(args),
+        "c20-tags" => tags(args),
+        _ => return None,
+    })
+}
+
 // ------------------------------------------------------------------------------------------
 // scoped map: table walk (binding R)
 // ------------------------------------------------------------------------------------------
